@@ -126,6 +126,28 @@ class Ctx:
         self.samples = []
         self.nontrivial_samples = []
         self.extra = {}
+        self.failures = []  # collected by enumerations that continue after a failing cell
+
+    def cell(self, case, fn):
+        """Run one cell of an enumeration; collect (not raise) its violation so the sweep continues."""
+        try:
+            res = fn(case, self)
+            self.record(case, res)
+            return True
+        except Violation as v:
+            self.failures.append({"check": v.check, "msg": v.msg, "details": v.details, "case": jsonable(case)})
+            return False
+        except Exception as e:  # noqa: BLE001
+            frame = aspire_frame(e)
+            if frame is None:
+                raise
+            try:
+                self.fail(f"exception:{type(e).__name__}@{frame}", f"{type(e).__name__}: {e}", case, exc=repr(e))
+                self.record(case, {"nontrivial": False, "labels": ["known-exception"]})
+                return True
+            except Violation as v:
+                self.failures.append({"check": v.check, "msg": v.msg, "details": v.details, "case": jsonable(case)})
+                return False
 
     # --- oracle failure ---------------------------------------------------
     def fail(self, check, msg, case=None, **details):
@@ -414,6 +436,8 @@ def run_check(prop_id, tier, seed, replay=None, examples=None, shards=None):
             )
         except Exception as e:  # noqa: BLE001
             errors.append(f"extra: {type(e).__name__}: {e}\n{traceback.format_exc()}")
+
+    failures.extend(merged.failures)
 
     # 3. generated search, sharded
     n_total = examples or module.BUDGET[tier]
